@@ -18,5 +18,5 @@ def run(ctx, only=("note", "int", "hz", "helmholtz", "velocity", "channel", "bad
     ctx.rule = "TLC-enumerated (Gen_C10) + seeded sort lists; distinct = distinct (operation, arguments); non-trivial = name with an accidental, or pair of different notes, or detuned frequency, or out-of-range bound"
     ctx.nontrivial = lambda r: len(r["in"].get("n", [])) > 1 or "a" in r["in"] or r["in"].get("cents", 0) != 0 or "v" in r["in"] or "c" in r["in"] or "notes" in r["in"]
     ctx.assumptions.append("frequency equalities are logged as relative error in 1e-12 and accepted within 1e-9; note identity decisions (which note a frequency maps to) are exact")
-    recs = ctx.execute("c10", cases)
+    recs = ctx.execute("c10", cases, orders=2)
     ctx.validate("Trace_C10", recs, driver="c10")
